@@ -157,6 +157,16 @@ def main():
     run_tlc(d, "FlytStoreLock", fam_store.lock_cfg("{1, 2}"), workers=4, heap="4g", tag="lock_pos", timeout=600)
     expect("lock-level model as implemented refines the atomic store", True)
 
+    # ---- negative control: a Close without Wait can lose queued tasks -----------------------------
+    import fam_pool
+    cfgtxt = fam_pool.mc_cfg("early", 1, 1, 2, 1).replace("EarlyCloseAccounting", "EarlyCloseAccounting EarlyCloseLosesNothing")
+    try:
+        run_tlc(d, "MCPool", cfgtxt, workers=4, heap="2g", tag="early_neg", timeout=300)
+        expect("pool model: TLC finds the behaviour in which a Close without Wait leaves a queued task behind", False, "no violation")
+    except ToolFailure as e:
+        expect("pool model: TLC finds the behaviour in which a Close without Wait leaves a queued task behind",
+               "EarlyCloseLosesNothing is violated" in str(e), "")
+
     os.makedirs(os.path.join(ROOT, "selftest"), exist_ok=True)
     with open(os.path.join(ROOT, "selftest", "report.json"), "w") as f:
         json.dump({"demonstrations": report, "failed": failed}, f, indent=1)
